@@ -402,3 +402,75 @@ Theorem C02_mixed_walk_truncation_is_never_a_clean_eof :
           ((length steps < length w)%nat -> exists e', e' <> EEof /\ e = Some e')).
 Proof. exact brp_run_trunc_v1. Qed.
 Print Assumptions C02_mixed_walk_truncation_is_never_a_clean_eof.
+
+(* ==== extension round: CARv2 containers for (c), for Inspect(true), and for mixed walks =============== *)
+From GoCarProofs Require Import ScanTruncV2Walk.
+
+(* (c) for the BlockReader over a CARv2 container (any data padding, index offset, trailing bytes) whose
+   payload holds a section that does not hash to its CID *)
+Theorem C02_corrupted_block_stops_the_scan_with_an_error_v2 :
+  forall hok hdrdec, hdrdec pragma_body = Some ([], 2) ->
+  forall o roots pre c d rest dpad ioff tail,
+    o_trusted o = false ->
+    hdr_good hdrdec roots -> blen (enc_header (Some roots) 1) <= o_maxh o ->
+    blen (enc_header (Some roots) 1) < two63 ->
+    Forall (block_ok (o_maxs o)) pre -> Forall (hash_good hok) pre ->
+    block_ok (o_maxs o) (c, d) -> hash_bad hok (c, d) ->
+    10 <= o_maxh o -> 51 + dpad < two63 -> ioff < two63 ->
+    blen (ld (enc_header (Some roots) 1) ++ enc_sections pre ++ enc_section c d ++ rest) < two63 ->
+    br_read_all hok hdrdec o
+      (container dpad ioff (ld (enc_header (Some roots) 1) ++ enc_sections pre ++ enc_section c d ++ rest) tail)
+    = Ok (2, roots, mkscan pre EOther).
+Proof. exact br_read_all_corrupt_v2. Qed.
+Print Assumptions C02_corrupted_block_stops_the_scan_with_an_error_v2.
+
+(* NewReader + Reader.Inspect(true) over a CARv2 container cut inside its payload off a section boundary,
+   and over one whose payload holds a corrupted section: fails (corollaries of C13_inspect_iff_scan) *)
+Theorem C02_inspect_fails_on_a_cut_or_corrupted_carv2 :
+  forall hok hdrdec, hdrdec pragma_body = Some ([], 2) ->
+  forall o roots dpad ioff tail,
+    o_maxs o <= max_digest_alloc ->
+    hdr_good hdrdec roots -> blen (enc_header (Some roots) 1) <= o_maxh o ->
+    blen (enc_header (Some roots) 1) < two63 -> 10 <= o_maxh o -> 51 + dpad < two63 -> ioff < two63 ->
+    (forall bs k,
+       Forall (block_ok (o_maxs o)) bs -> Forall (hash_good hok) bs -> 0 < blen (enc_payload roots bs) < two63 ->
+       51 + dpad <= k -> k < 51 + dpad + blen (enc_payload roots bs) ->
+       ~ (exists j, (j <= length bs)%nat /\
+            k = 51 + dpad + blen (ld (enc_header (Some roots) 1)) + blen (enc_sections (firstn j bs))) ->
+       exists e, inspect_file hok hdrdec o (take k (container dpad ioff (enc_payload roots bs) tail)) true = Err e) /\
+    (forall pre c d rest,
+       Forall (block_ok (o_maxs o)) pre -> Forall (hash_good hok) pre ->
+       block_ok (o_maxs o) (c, d) -> hash_bad hok (c, d) ->
+       blen (ld (enc_header (Some roots) 1) ++ enc_sections pre ++ enc_section c d ++ rest) < two63 ->
+       exists e, inspect_file hok hdrdec o
+         (container dpad ioff (ld (enc_header (Some roots) 1) ++ enc_sections pre ++ enc_section c d ++ rest) tail)
+         true = Err e).
+Proof. exact inspect_v2_fails. Qed.
+Print Assumptions C02_inspect_fails_on_a_cut_or_corrupted_carv2.
+
+(* (b) for every walk over a CARv2 container: NewBlockReader over the container cut at any k inside the
+   sections of its payload that is not a section boundary, on a seekable or a plain source, any options,
+   ANY choice string of Next (true) / SkipNext (false): only sections lying completely in front of the cut
+   are returned, in order; the walk never ends with io.EOF; it ends with an error as soon as the choices
+   outlast the returned steps.  (SkipNext on a CARv2 reads through the io.LimitReader of the payload.) *)
+Theorem C02_mixed_walk_truncation_is_never_a_clean_eof_v2 :
+  forall hok hdrdec, hdrdec pragma_body = Some ([], 2) ->
+  forall o seek roots bs dpad ioff tail k w,
+    hdr_good hdrdec roots -> blen (enc_header (Some roots) 1) <= o_maxh o ->
+    blen (enc_header (Some roots) 1) < two63 ->
+    Forall (block_ok (o_maxs o)) bs -> Forall (fun b => cid_stream_ok (fst b)) bs ->
+    (o_trusted o = false -> Forall (hash_good hok) bs) ->
+    10 <= o_maxh o -> 51 + dpad < two63 -> ioff < two63 -> 0 < blen (enc_payload roots bs) < two63 ->
+    51 + dpad + blen (ld (enc_header (Some roots) 1)) <= k -> k < 51 + dpad + blen (enc_payload roots bs) ->
+    ~ (exists j, (j <= length bs)%nat /\
+         k = 51 + dpad + blen (ld (enc_header (Some roots) 1)) + blen (enc_sections (firstn j bs))) ->
+    exists j st0 steps e fin, (j < length bs)%nat /\
+      51 + dpad + blen (ld (enc_header (Some roots) 1)) + blen (enc_sections (firstn j bs)) < k /\
+      brp_run hok hdrdec o seek (take k (container dpad ioff (enc_payload roots bs) tail)) w
+      = Ok (2, roots, st0, (steps, (e, fin))) /\
+      (length steps <= j)%nat /\
+      map step_cid steps = firstn (length steps) (map fst bs) /\
+      e <> Some EEof /\
+      ((length steps < length w)%nat -> exists e', e' <> EEof /\ e = Some e').
+Proof. exact brp_run_trunc_v2. Qed.
+Print Assumptions C02_mixed_walk_truncation_is_never_a_clean_eof_v2.
